@@ -45,7 +45,7 @@ def load_known() -> Dict[str, dict]:
     return known
 
 
-def collect_cases(src: str, dst: str, n: int, rng: random.Random, tag: str) -> int:
+def collect_cases(src: str, dst: str, n: int, rng: random.Random, tag: str):
     """Distinct cases of src (TLC may print a case more than once), a seeded
     sample of n of them if there are more, with ids."""
     seen = set()
@@ -57,6 +57,7 @@ def collect_cases(src: str, dst: str, n: int, rng: random.Random, tag: str) -> i
                 seen.add(line)
                 cases.append(line)
     cases.sort()
+    total = len(cases)
     if len(cases) > n:
         cases = rng.sample(cases, n)
     with open(dst, "w") as out:
@@ -64,13 +65,18 @@ def collect_cases(src: str, dst: str, n: int, rng: random.Random, tag: str) -> i
             c = json.loads(line)
             c["id"] = f"{tag}-{i}"
             out.write(json.dumps(c, separators=(",", ":")) + "\n")
-    return len(cases)
+    return len(cases), total
 
 
 def run(prop: str, tier: str, replay: str = None) -> int:
     rep = Report(prop, tier)
     rng = random.Random(core.seed() * 1000003 + int(prop[1:]))
     wd = tlc.workdir(prop)
+    evidence_file = os.path.join(core.EVIDENCE, f"{prop}.json")
+    kept = None
+    if replay and os.path.exists(evidence_file):
+        with open(evidence_file) as f:
+            kept = f.read()       # a replay of one case must not replace the evidence of a run
     try:
         cases = os.path.join(wd, "cases.ndjson")
         if replay:
@@ -85,8 +91,10 @@ def run(prop: str, tier: str, replay: str = None) -> int:
                                timeout=2400 if tier == "thorough" else 600)
             res["ok"] = res["ok"] and res["distinct"] > 0 and not res["timed_out"]
             rep.add_mc(g[tier], res)
-            n = collect_cases(allc, cases, SAMPLE[tier], rng, prop)
-            rep.extra["generated_cases"] = n
+            n, total = collect_cases(allc, cases, SAMPLE[tier], rng, prop)
+            rep.extra["generated_cases"] = total
+            rep.extra["replayed_cases"] = n
+            rep.exhaustive = (n == total)     # the whole enumerated space was replayed
             os.remove(allc)
             if tier == "thorough":
                 strict_demo(rep, prop)
@@ -117,7 +125,11 @@ def run(prop: str, tier: str, replay: str = None) -> int:
             "a callee clobbers at most the caller-saved registers, the flags, its argument area and the stack below sp",
             "ABI facts (register sets, red zone, default conventions) are taken from the psABI documents",
         ]
-        return rep.finish()
+        rc = rep.finish()
+        if kept is not None:
+            with open(evidence_file, "w") as f:
+                f.write(kept)
+        return rc
     finally:
         tlc.cleanup(wd)
 
@@ -175,7 +187,9 @@ def judge(rep: Report, prop: str, verdicts: List[dict], case_by_id: Dict[str, di
     if ood:
         rep.notes.append(f"{ood} case(s) OUT-OF-DOMAIN: an emitted instruction is outside the "
                          "instruction table and touches sp/memory; not judged")
-    # findings proposed by this group that are not merged yet
-    for kid in rep.known_matched:
+    # findings proposed by this group that are not merged into known_findings.json yet
+    for kid in sorted(rep.known_matched):
         if not any(k["id"] == kid for k in core.load_known()):
             rep.notes.append(f"{kid}: {known[kid].get('what', '')} (entry: findings/{kid}/entry.json)")
+            print(f"KNOWN-FINDING-DETAIL: property={prop} {kid} {known[kid].get('what', '')} "
+                  f"(findings/{kid}/entry.json)")
